@@ -21,17 +21,19 @@ EXTENDS Naturals, Sequences, FiniteSets, TLC
 Evs == 1..2
 Max2(x, y) == IF x > y THEN x ELSE y
 Min2(x, y) == IF x < y THEN x ELSE y
-IsWaitKind(k) == k \in {"to", "wait", "all", "any", "nest", "nest2", "proc", "native"}
+IsWaitKind(k) == k \in {"to", "wait", "all", "any", "nest", "nest2", "proc", "native", "dall", "dwait"}
 
 NoEv == [trig |-> FALSE, t |-> 0, ok |-> TRUE, v |-> 0, cb |-> 0, seen |-> FALSE]
 NewProc == [st |-> "new", pc |-> 1, k |-> <<"none">>, t0 |-> 0, intq |-> <<>>, dt |-> 0, must |-> FALSE]
 \* until: 0 = run to quiescence, 1..9 = until that time, 10 + e = until event e
-InitState(procs, until) ==
-  [now |-> 0, script |-> procs, until |-> until, ev |-> [e \in Evs |-> NoEv],
+\* defuse: a callback of event 1 handles its failure (the SimPy supervision idiom)
+InitStateD(procs, until, defuse) ==
+  [now |-> 0, script |-> procs, until |-> until, defuse |-> defuse, ev |-> [e \in Evs |-> NoEv],
    proc |-> [p \in 1..Len(procs) |-> NewProc], running |-> 0, over |-> FALSE, out |-> "none",
    \* conditions `timeout(d) | event e` that were abandoned by an interrupted process (they stay alive and fail, as
    \* events nobody waits for, if e fails before they are decided); doom: "no" | "may" | "must" - such a failure happened
    orph |-> {}, doom |-> "no"]
+InitState(procs, until) == InitStateD(procs, until, FALSE)
 
 NProcs(S) == Len(S.script)
 StepOf(S, p) == S.script[p][S.proc[p].pc]
@@ -46,6 +48,9 @@ Exp(S, p) ==
     [] k[1] = "wait"   -> [known |-> S.ev[k[2]].trig, t |-> Max2(t0, S.ev[k[2]].t), ok |-> S.ev[k[2]].ok, amb |-> FALSE]
     [] k[1] = "proc"   -> [known |-> S.proc[k[2]].st = "done", t |-> Max2(t0, S.proc[k[2]].dt), ok |-> TRUE, amb |-> FALSE]
     [] k[1] = "all"    -> [known |-> TRUE, t |-> t0 + Max2(k[2], k[3]), ok |-> TRUE, amb |-> FALSE]
+    \* the same event listed twice: all_of([t1, t2, t1]) / e & e
+    [] k[1] = "dall"   -> [known |-> TRUE, t |-> t0 + Max2(k[2], k[3]), ok |-> TRUE, amb |-> FALSE]
+    [] k[1] = "dwait"  -> [known |-> S.ev[k[2]].trig, t |-> Max2(t0, S.ev[k[2]].t), ok |-> S.ev[k[2]].ok, amb |-> FALSE]
     [] k[1] = "nest"   -> [known |-> TRUE, t |-> t0 + Max2(Min2(k[2], k[3]), k[4]), ok |-> TRUE, amb |-> FALSE]
     [] k[1] = "nest2"  -> [known |-> TRUE, t |-> t0 + Min2(Max2(k[2], k[3]), k[4]), ok |-> TRUE, amb |-> FALSE]
     [] k[1] = "any"    ->
@@ -55,7 +60,7 @@ Exp(S, p) ==
          ELSE [known |-> TRUE, t |-> tt, ok |-> TRUE, amb |-> FALSE]
     [] OTHER -> [known |-> FALSE, t |-> 0, ok |-> TRUE, amb |-> FALSE]
 \* the event (if any) whose failure a resumption of p hands to the process
-EvOf(S, p) == LET k == S.proc[p].k IN IF k[1] = "wait" THEN k[2] ELSE IF k[1] = "any" THEN k[3] ELSE 0
+EvOf(S, p) == LET k == S.proc[p].k IN IF k[1] \in {"wait", "dwait"} THEN k[2] ELSE IF k[1] = "any" THEN k[3] ELSE 0
 
 ----------------------------------------------------------------------------
 \* ACTIONS: guard G_x(S, args) and effect F_x(S, args)
@@ -101,13 +106,16 @@ G_ResumeI(S, p) == ~S.over /\ S.running = 0 /\ CanInterrupt(S, p)
 G_ResumeC(S, p) == ~S.over /\ S.running = 0 /\ CanComplete(S, p)
 Resumed(S, p) == [S EXCEPT !.proc[p].st = "run", !.proc[p].pc = @ + 1, !.running = p]
 F_ResumeI(S, p) == LET k == S.proc[p].k
-                       tt == S.proc[p].t0 + k[2]
-                       e == S.ev[k[3]]
+                       \* the wait was for a condition over a shared event (timeout(d) | e, or e & e): it is abandoned
+                       cond == k[1] \in {"any", "dwait"}
+                       en == IF k[1] = "any" THEN k[3] ELSE IF k[1] = "dwait" THEN k[2] ELSE 1
+                       tt == IF k[1] = "any" THEN S.proc[p].t0 + k[2] ELSE 99
+                       e == S.ev[en]
                        \* the abandoned condition has already met the failure of its event (before / as its timeout fired)
                        te == Max2(S.proc[p].t0, e.t)
-                       failed == k[1] = "any" /\ e.trig /\ ~e.ok /\ te <= tt IN
+                       failed == cond /\ e.trig /\ ~e.ok /\ te <= tt IN
    [Resumed(S, p) EXCEPT !.proc[p].intq = Tail(@),
-                         !.orph = IF k[1] = "any" /\ ~e.trig /\ S.now <= tt THEN @ \cup {[e |-> k[3], tt |-> tt]} ELSE @,
+                         !.orph = IF cond /\ ~e.trig /\ S.now <= tt THEN @ \cup {[e |-> en, tt |-> tt]} ELSE @,
                          !.doom = IF failed /\ te < tt THEN "must" ELSE IF failed /\ @ = "no" THEN "may" ELSE @]
 F_ResumeC(S, p) == IF ~Exp(S, p).ok /\ EvOf(S, p) # 0 THEN [Resumed(S, p) EXCEPT !.ev[EvOf(S, p)].seen = TRUE]     \* the failure is handled (defused)
                    ELSE Resumed(S, p)
@@ -117,7 +125,7 @@ G_Callback(S, e) == ~S.over /\ S.running = 0 /\ S.ev[e].trig /\ S.ev[e].cb = 0 /
 Watched(S, e) == \E p \in 1..NProcs(S) : S.proc[p].st = "wait" /\ EvOf(S, p) = e
 \* outcomes: "ok" (callbacks ran), "fail" (the failure is nobody's: run() raises it)
 CallbackMay(S, e, o) ==
-  IF S.ev[e].ok \/ S.ev[e].seen THEN o = "ok"
+  IF S.ev[e].ok \/ S.ev[e].seen \/ (S.defuse /\ e = 1) THEN o = "ok"
   ELSE IF Watched(S, e) THEN o \in {"ok", "fail"}         \* a waiter is about to handle it: order inside the step decides
   ELSE o = "fail"
 \* (a failure that is nobody's dooms the run: it ends within this time step with that exception; what else is due
@@ -160,11 +168,11 @@ CONSTANTS NP, NS
 VARIABLE S
 StepSet(i) == {<<"to", d, d + 5>> : d \in 0..2} \cup {<<"wait", e>> : e \in Evs}
               \cup {<<"succ", e, 7>> : e \in Evs} \cup {<<"fail", 1>>}
-              \cup {<<"all", 1, 2>>, <<"any", 2, 1>>, <<"any", 1, 2>>, <<"native", 1>>}
+              \cup {<<"all", 1, 2>>, <<"any", 2, 1>>, <<"any", 1, 2>>, <<"native", 1>>, <<"dall", 1, 2>>, <<"dwait", 1>>}
               \cup {<<"proc", k>> : k \in (1..NP) \ {i}} \cup {<<"intr", k, 40 + i>> : k \in (1..NP) \ {i}}
 Init == \E until \in {0, 2, 11} : \E ps \in [1..NP -> UNION {[1..m -> UNION {StepSet(i) : i \in 1..NP}] : m \in 1..NS}] :
           /\ \A i \in 1..NP : \A j \in 1..Len(ps[i]) : (ps[i][j][1] \in {"proc", "intr"} => ps[i][j][2] # i)
-          /\ S = InitState(ps, until)
+          /\ \E df \in BOOLEAN : S = InitStateD(ps, until, df)
 Next ==
   \/ \E p \in 1..NProcs(S) :
         \/ G_Start(S, p) /\ S' = F_Start(S, p)
